@@ -149,9 +149,22 @@ RenderEv ==
         \* (corpus files: identifiers are not unique per path, the symbol-based reference projection does not apply)
         /\ (~E.c01.on) => (MonRefs(E.specs, refs, bare, TRUE) /\ MonFile(E.specs, refs, bare, E.parses))
         \* C01: the re-parsed output equals the source program (package, imports under the same names, every declaration)
-        /\ (E.c01.on /\ E.status # "nil") => Report("C01", IF E.c01.known # "" THEN E.c01.known \o ":" \o E.c01.file ELSE "render fails: " \o E.c01.file)
-        /\ (E.c01.on /\ E.status = "nil" /\ ~(E.c01.parses /\ E.c01.pkgeq /\ E.c01.impeq /\ E.c01.asteq))
+        /\ (E.c01.on /\ E.c01.var.prop = "" /\ E.status # "nil") => Report("C01", IF E.c01.known # "" THEN E.c01.known \o ":" \o E.c01.file ELSE "render fails: " \o E.c01.file)
+        /\ (E.c01.on /\ E.c01.var.prop = "" /\ E.status = "nil" /\ ~(E.c01.parses /\ E.c01.pkgeq /\ E.c01.impeq /\ E.c01.asteq))
              => Report("C01", IF E.c01.known # "" THEN E.c01.known \o ":" \o E.c01.file ELSE "differs: " \o E.c01.file)
+        \* program-level variants (C13 C14 C15): a real program executed in a changed way that must not matter
+        \*   C13 null-like items injected into its list-like constructs, C14 a random form at every node,
+        \*   C15 comments added to its multi-line containers - compared with the unchanged execution and with the source
+        /\ (E.c01.on /\ E.c01.var.prop # "") =>
+             LET v == E.c01.var  key == E.c01.file IN
+             /\ (E.status # "nil") => Report(v.prop, "program variant does not render: " \o key)
+             /\ (E.status = "nil" /\ ~(E.c01.parses /\ E.c01.pkgeq /\ E.c01.impeq /\ E.c01.asteq)) => Report(v.prop, "program variant is another program: " \o key)
+             /\ (v.prop = "C13" /\ ~v.sameraw) => Report("C13", "null items change the raw rendering of a program: " \o key)
+             /\ (v.prop \in {"C13", "C14"} /\ ~v.sameout) => Report(v.prop, "program variant renders other bytes: " \o key)
+             /\ (v.prop = "C14" /\ ~v.sameraw) => Report("C14", "forms render different raw bytes in a program: " \o key)
+             /\ (v.prop = "C14" /\ ~v.cbok) => Report("C14", "callbacks not run exactly once at build time in a program: " \o key)
+             /\ (v.prop = "C15" /\ E.status = "nil" /\ ~v.sametoks) => Report("C15", "comments change the code tokens of a program: " \o key)
+             /\ (v.prop = "C15" /\ E.status = "nil" /\ ~v.cmtok) => Report("C15", "comment text lost or in the wrong style in a program: " \o key)
         \* C15 (file level): package comments are the package doc, headers are kept apart, the canonical path is well formed
         /\ (E.c15f.on /\ ~E.c15f.docok) => Report("C15", "package comments are not exactly the package doc")
         /\ (E.c15f.on /\ ~E.c15f.headok) => Report("C15", "header comment lost or part of the package doc")
